@@ -314,7 +314,8 @@ Qed.
 (* ---------- inversion of add_item on each kind of item ---------- *)
 Lemma triple_str_inv lst f op sv t ss : triple_of_item lst (IFilter f op (VStr sv)) = Some (t, ss) ->
   exists fc oc, lookupS (s2l op) operators_table = Some oc /\ lookupS (s2l f) fields_table = Some fc /\ is_string_field fc = true /\
-                t = (fc, oc, N.of_nat (List.length sv)) /\ ss = [sv].
+                t = (fc, oc, N.of_nat (List.length sv)) /\ ss = [sv] /\
+                ((if streq f "key" then max_key_length else path_max) <? N.of_nat (List.length sv)) = false.
 Proof.
   unfold triple_of_item, add_item.
   destruct (lookupS (s2l op) operators_table) as [oc|]; [|discriminate].
@@ -326,7 +327,7 @@ Proof.
   destruct (streq f "perm" && negb (streq op "=")); [discriminate|].
   destruct (is_string_field fc) eqn:Es; cbn [negb]; [|discriminate].
   destruct ((if streq f "key" then max_key_length else path_max) <? N.of_nat (List.length sv)); [discriminate|].
-  cbn [app]. intros H. injection H as <- <-. exists fc, oc. auto.
+  cbn [app]. intros H. injection H as <- <-. exists fc, oc. auto 10.
 Qed.
 
 Lemma saddr_is_113 : lookupS (s2l "saddr_fam") fields_table = Some 113 /\ lookupN 113 reverse_fields_table = Some "saddr_fam".
@@ -470,7 +471,7 @@ Proof.
     destruct (field_name_facts _ _ Ef') as (Hrf & Hne & Hw & H111). rewrite s2l_sos in Hne, Hw.
     destruct (is_string_field fc) eqn:Es.
     + (* string-valued *)
-      injection Hit as <-. destruct (triple_str_inv _ _ _ _ _ _ Ht) as (fc' & oc & Ho & Hf2 & _ & -> & ->).
+      injection Hit as <-. destruct (triple_str_inv _ _ _ _ _ _ Ht) as (fc' & oc & Ho & Hf2 & _ & -> & -> & _).
       rewrite Ef' in Hf2. injection Hf2 as <-.
       destruct (op_name_facts _ _ Ho) as [Hro Hin]. rewrite s2l_sos in Hin.
       assert (H11: fc =? 11 = false). { destruct (fc =? 11) eqn:E; auto. apply N.eqb_eq in E. subst fc. discriminate. }
